@@ -653,32 +653,33 @@ def shrink(env, case, kinds):
         except Exception: return False
         got = {v['kind'] for v in env.violations} | {b['kind'] for b in commit_oracle(trace)}
         return bool(got & kinds)
-    best = case; budget = 90
-    changed = True
-    while changed and budget > 0:
-        changed = False
-        for t in range(len(best['progs'])):
-            for i in range(len(best['progs'][t]) - 1):      # keep the final close
+    best = case; budget = 240
+    for _round in range(2):          # operations, then the schedule, then operations again
+        changed = True
+        while changed and budget > 0:
+            changed = False
+            for t in range(len(best['progs'])):
+                for i in range(len(best['progs'][t]) - 1):      # keep the final close
+                    budget -= 1
+                    if budget <= 0: break
+                    c = dict(best, progs=[list(p) for p in best['progs']])
+                    del c['progs'][t][i]
+                    if fails(c): best = c; changed = True; break
+        # the schedule: no explicit picks (round-robin drain), else op-level picks, else drop chunks of picks
+        for cand in ([], [100 + (p % 100) for p in best['picks']]):
+            if budget > 0 and cand != best['picks']:
                 budget -= 1
-                if budget <= 0: break
-                c = dict(best, progs=[list(p) for p in best['progs']])
-                del c['progs'][t][i]
-                if fails(c): best = c; changed = True; break
-    # the schedule: no explicit picks (round-robin drain), else op-level picks, else drop chunks of picks
-    for cand in ([], [100 + (p % 100) for p in best['picks']]):
-        if budget > 0 and cand != best['picks']:
-            budget -= 1
-            c = dict(best, picks=cand)
-            if fails(c): best = c; break
-    size = max(1, len(best['picks']) // 2)
-    while size >= 1 and budget > 0 and best['picks']:
-        i = 0; removed = False
-        while i < len(best['picks']) and budget > 0:
-            budget -= 1
-            c = dict(best, picks=best['picks'][:i] + best['picks'][i + size:])
-            if fails(c): best = c; removed = True
-            else: i += size
-        if not removed or size == 1: size //= 2
+                c = dict(best, picks=cand)
+                if fails(c): best = c; break
+        size = max(1, len(best['picks']) // 2)
+        while size >= 1 and budget > 0 and best['picks']:
+            i = 0; removed = False
+            while i < len(best['picks']) and budget > 0:
+                budget -= 1
+                c = dict(best, picks=best['picks'][:i] + best['picks'][i + size:])
+                if fails(c): best = c; removed = True
+                else: i += size
+            if not removed or size == 1: size //= 2
     return best
 
 
